@@ -197,6 +197,91 @@ func propC18rest(a *Analysis, r *Registry, b *B) {
 			}
 		})
 	}
+	// removal lookups use underlying-graph identifiers
+	if fn := b.Fn(rB, "graph.SubgraphRemove"); fn != nil {
+		b.guard(rB, "graph.SubgraphRemove/lookups", func() {
+			fc := X.FCFor(fn)
+			env := X.EnvFor(fn, "g", "nodes", "edges")
+			okEdge, okNode := false, false
+			fc.Ctx.Instrs(func(in ssa.Instruction) {
+				lk, ok := in.(*ssa.Lookup)
+				if !ok || fc.Ctx.LoopOf(lk.Block()) == nil {
+					return
+				}
+				key := fc.Val(lk.Index)
+				if ka := key.SingleAtom(); ka != nil && ka.Name == "mk:Edge" {
+					// Edge{N, j}: N must be the node whose adjacency list is being walked, j the position in it
+					for _, c := range fc.CallsTo("invoke:Out") {
+						out := fc.Val(c)
+						N := fc.Val(c.Call.Args[0])
+						if !ka.Args[0].Equal(N) {
+							continue
+						}
+						// j indexes out: some element out[j] is read in this loop
+						fc.Ctx.Instrs(func(in2 ssa.Instruction) {
+							if u, ok := in2.(*ssa.UnOp); ok {
+								if ea := fc.Val(u).SingleAtom(); ea != nil && ea.Name == "idx" && ea.Args[0].Equal(out) && ea.Args[1].Equal(ka.Args[1]) {
+									okEdge = true
+								}
+							}
+						})
+					}
+				} else if ea := key.SingleAtom(); ea != nil && ea.Name == "idx" {
+					if oa := ea.Args[0].SingleAtom(); oa != nil && oa.Name == "call:Out" {
+						okNode = true // rmNodes[oldOut[j]] / oldToNew[oldOut[j]]
+					}
+				}
+			})
+			_ = env
+			if okEdge {
+				r.OK(rB, "graph.SubgraphRemove/edge-lookup", b.pos(fn), "removed edges are looked up as Edge{old node id, position in its old adjacency list}")
+			} else {
+				r.Fail(rB, "graph.SubgraphRemove/edge-lookup", b.pos(fn), "the removed-edge lookup is not keyed by the underlying node id whose adjacency list is walked and the position in it")
+			}
+			if okNode {
+				r.OK(rB, "graph.SubgraphRemove/target-lookup", b.pos(fn), "edge targets are looked up by their underlying id")
+			} else {
+				r.Fail(rB, "graph.SubgraphRemove/target-lookup", b.pos(fn), "edge targets are not looked up by their underlying id")
+			}
+		})
+	}
+	if fn := b.Fn(rB, "graph.SubgraphKeep"); fn != nil {
+		b.guard(rB, "graph.SubgraphKeep/edge", func() {
+			fc := X.FCFor(fn)
+			env := X.EnvFor(fn, "g", "nodes", "edges")
+			for _, c := range fc.CallsTo("builtin:append") {
+				vals := fc.AppendedValues(c)
+				if len(vals) != 1 {
+					continue
+				}
+				base := fc.Val(c.Call.Args[0]).String()
+				e := X.EnvFor(fn, "g", "nodes", "edges")
+				// the kept edge: the element of `edges` being processed
+				ed := FindFn(vals[0], "idx")
+				var oe *RF
+				for _, at := range ed {
+					if at.Args[0].Equal(env.Vars["edges"].RF) {
+						oe = X.S.atomRF(at.ID)
+					}
+				}
+				if oe == nil {
+					continue
+				}
+				e.Set("oe", oe, a.W.Lib["graph"].Members["Edge"].Type())
+				if strings.Contains(base, "listSubgraphNode.oldEdges") {
+					b.Eq(rB, "graph.SubgraphKeep/oldEdges-value", a.W.InstrPos(c), vals[0], e, "oe.Edge")
+				}
+				if strings.Contains(base, "listSubgraphNode.out") {
+					lk := vals[0].SingleAtom()
+					if lk != nil && lk.Name == "lookup" {
+						b.Eq(rB, "graph.SubgraphKeep/out-value", a.W.InstrPos(c), lk.Args[1], e, "g.Out(oe.Node)[oe.Edge]")
+					} else {
+						r.Fail(rB, "graph.SubgraphKeep/out-value", a.W.InstrPos(c), "new edge target is not oldToNew[g.Out(edge.Node)[edge.Edge]]")
+					}
+				}
+			}
+		})
+	}
 	// MakeBiGraph: preds[j] = append(preds[j], i) for j in g.Out(i)
 	if fn := b.Fn(rB, "graph.MakeBiGraph"); fn != nil {
 		b.guard(rB, "graph.MakeBiGraph", func() {
